@@ -120,3 +120,33 @@ def _c11_one_shot(f: Failure) -> bool:
         # the first complete request seen by the server already followed a failed send attempt
         return str(o.get("history", "")).startswith("sendreset1") and o.get("got", 0) < o.get("want", 0) and o.get("exc") is None
     return False
+
+
+# ---------------------------------------------------------------------------------- C04 -------
+@finding("C04", "proxy-read-error-retried-as-other")
+def _c04_proxy_misfile(f: Failure) -> bool:
+    """Behind a (forwarding or tunnelling) proxy a connection reset / EOF while the response is awaited is reported as
+    'unable to connect to proxy' (ProxyError) and charged to the 'other' budget: it is retried although read=0, and a
+    non-idempotent request is sent a second time."""
+    o = f["observed"] or {}
+    if o.get("pool") not in ("forward", "tunnel") or o.get("explained_by_proxy_misfiled_reads") is not True:
+        return False
+    if f["kind"] == "non-idempotent-resent":
+        return o.get("after") == "read" and o.get("after_detail") in ("reset", "eof")
+    if f["kind"] == "category-budget-exceeded":
+        return o.get("category") == "read"
+    return False
+
+
+@finding("C04", "retry-after-honoured-for-any-retried-status")
+def _c04_retry_after_any_status(f: Failure) -> bool:
+    """sleep() honours Retry-After of whatever response caused the retry, e.g. a forcelisted 500 with
+    'Retry-After: 3600' sleeps 3600 s although the header is documented to count only for 413/429/503."""
+    o = f["observed"] or {}
+    return (
+        f["kind"] == "sleep-out-of-bounds"
+        and o.get("respect") is True
+        and isinstance(o.get("retry_after_status"), int)
+        and o["retry_after_status"] not in (413, 429, 503)
+        and o.get("retry_after_status_forcelisted") is True  # retried for another reason; the header only set the sleep
+    )
